@@ -42,6 +42,98 @@ Proof.
   - intros u Hu. destruct (Permutation_in u P Hu) as [E|Hin]; [left; now symmetry|now right].
 Qed.
 
+(* ---- connections in bad health ---- *)
+(* writes to connection c succeed: no permanent failure, no single failure pending *)
+Definition healthy (st : rstate) (c : nat) : Prop := bad_of (r_bad st) c = None /\ ~ In c (r_once st).
+
+Lemma del1_notin c c' l : ~ In c l -> ~ In c (del1 c' l).
+Proof.
+  induction l as [|x l IH]; cbn; [auto|]. intros H. destruct (Nat.eqb x c').
+  - intro Hc. apply H. now right.
+  - intros [->|Hc]; [apply H; now left|]. apply IH; [|exact Hc]. intro Hl. apply H. now right.
+Qed.
+
+Lemma uniq_drop_user t c uid : Uniq t -> Uniq (drop_user t c uid).
+Proof.
+  intro U. unfold drop_user. destruct (find_idx (is_user c uid) t) as [i|] eqn:F; [|exact U].
+  destruct (find_idx_some _ _ _ F) as (e & He & _). exact (proj1 (uniq_swap_remove _ _ _ U He)).
+Qed.
+
+Lemma drop_user_keeps t c uid x : Uniq t -> In x t -> u_conn x <> c -> In x (drop_user t c uid).
+Proof.
+  intros U Hx Ne. unfold drop_user. destruct (find_idx (is_user c uid) t) as [i|] eqn:F; [|exact Hx].
+  destruct (find_idx_some _ _ _ F) as (e & He & Fe).
+  destruct (proj2 (proj2 (uniq_swap_remove _ _ _ U He)) x Hx) as [->|Hin]; [|exact Hin].
+  exfalso. apply is_user_key in Fe. unfold ukey in Fe. injection Fe as E _. now apply Ne.
+Qed.
+
+Lemma drop_user_subset t c uid u : Uniq t -> In u (drop_user t c uid) -> In u t.
+Proof.
+  intros U. unfold drop_user. destruct (find_idx (is_user c uid) t) as [i|] eqn:F; [|auto].
+  destruct (find_idx_some _ _ _ F) as (e & He & _). intro Hu.
+  apply (Permutation_in u (Permutation_sym (swap_remove_perm t i e He))). now right.
+Qed.
+
+(* the delivery loop: the table stays a table, entries of connections whose writes do not fail with
+   io.EOF stay, no entry appears *)
+Lemma emit_go_inv snap : forall t bad once, Uniq t ->
+  let '(t', _) := emit_go snap t bad once in
+  Uniq t' /\ (forall x, In x t -> bad_of bad (u_conn x) = None -> In x t') /\ (forall u, In u t' -> In u t).
+Proof.
+  induction snap as [|u r IH]; intros t bad once U; cbn [emit_go]; [auto|].
+  destruct (bad_of bad (u_conn u)) as [k|] eqn:B.
+  - destruct (k =? 1).
+    + specialize (IH (drop_user t (u_conn u) (u_uid u)) bad once (uniq_drop_user _ _ _ U)).
+      destruct (emit_go r (drop_user t (u_conn u) (u_uid u)) bad once) as [t' l].
+      destruct IH as (U' & K & S). repeat split; [exact U'| |].
+      * intros x Hx Hb. apply K; [|exact Hb]. apply drop_user_keeps; [exact U|exact Hx|]. intro E. congruence.
+      * intros v Hv. apply (drop_user_subset t (u_conn u) (u_uid u)); [exact U|]. now apply S.
+    + exact (IH t bad once U).
+  - destruct (existsb (Nat.eqb (u_conn u)) once); [exact (IH t bad once U)|].
+    specialize (IH t bad once U). destruct (emit_go r t bad once) as [t' l]. exact IH.
+Qed.
+
+(* the pending transient failures only go away *)
+Lemma once_after_notin snap bad c : forall hit once, ~ In c once -> ~ In c (once_after snap bad hit once).
+Proof.
+  induction snap as [|u r IH]; intros hit once H; cbn [once_after]; [exact H|].
+  destruct (bad_of bad (u_conn u)); [now apply IH|].
+  destruct (existsb (Nat.eqb (u_conn u)) hit); apply IH; [exact H|now apply del1_notin].
+Qed.
+
+(* ... and every entry of the snapshot whose connection is healthy is written to *)
+Lemma emit_go_sends snap : forall t bad once x, In x snap -> bad_of bad (u_conn x) = None -> ~ In (u_conn x) once ->
+  In (u_conn x, u_mid x) (snd (emit_go snap t bad once)).
+Proof.
+  induction snap as [|u r IH]; intros t bad once x Hx Hb Ho; [destruct Hx|]. cbn [emit_go].
+  destruct Hx as [->|Hx].
+  - rewrite Hb. destruct (existsb (Nat.eqb (u_conn x)) once) eqn:E.
+    + exfalso. apply existsb_exists in E. destruct E as (c & Hc & Ec). apply Nat.eqb_eq in Ec. subst c. exact (Ho Hc).
+    + destruct (emit_go r t bad once) as [t' l]. now left.
+  - destruct (bad_of bad (u_conn u)) as [k|].
+    + destruct (k =? 1); now apply IH.
+    + destruct (existsb (Nat.eqb (u_conn u)) once); [now apply IH|].
+      specialize (IH t bad once x Hx Hb Ho). destruct (emit_go r t bad once) as [t' l]. now right.
+Qed.
+
+(* nothing is ever written to a connection every write to which fails *)
+Lemma emit_go_bad snap : forall t bad once c m, bad_of bad c <> None -> ~ In (c, m) (snd (emit_go snap t bad once)).
+Proof.
+  induction snap as [|u r IH]; intros t bad once c m Hb; cbn [emit_go]; [auto|].
+  destruct (bad_of bad (u_conn u)) as [k|] eqn:B.
+  - destruct (k =? 1); now apply IH.
+  - destruct (existsb (Nat.eqb (u_conn u)) once); [now apply IH|].
+    specialize (IH t bad once c m Hb). destruct (emit_go r t bad once) as [t' l]. cbn [snd] in *.
+    intros [E|Hin]; [|exact (IH Hin)]. injection E as E _. rewrite E in B. exact (Hb B).
+Qed.
+
+(* with every connection in good health the loop is the plain fan-out over the snapshot *)
+Lemma emit_go_healthy snap t : emit_go snap t [] [] = (t, map (fun u => (u_conn u, u_mid u)) snap).
+Proof. induction snap as [|u r IH]; [reflexivity|]. cbn [emit_go bad_of existsb]. now rewrite IH. Qed.
+
+Lemma bad_of_break bad c c' k : c' <> c -> bad_of ((c', k) :: bad) c = bad_of bad c.
+Proof. intro Ne. cbn. destruct (Nat.eqb c' c) eqn:E; [apply Nat.eqb_eq in E; contradiction|reflexivity]. Qed.
+
 Section Raw.
 Variable g : scfg.
 Hypothesis G : rclean g.
@@ -49,7 +141,7 @@ Hypothesis G : rclean g.
 Lemma raw_step_inv st o : Uniq (r_table st) -> r_dead st = false ->
   Uniq (r_table (fst (raw_step g st o))) /\ r_dead (fst (raw_step g st o)) = false.
 Proof.
-  destruct G as [Gu Gd]. intros U D. destruct o as [c m sig uid|c sig uid|sig p]; cbn [raw_step]; rewrite ?D.
+  destruct G as [Gu Gd]. intros U D. destruct o as [c m sig uid|c sig uid|sig p|c k]; cbn [raw_step]; rewrite ?D.
   - destruct (find_idx (same_user g c uid) (r_table st)) as [i|] eqn:F.
     + rewrite Gd. cbn. auto.
     + cbn. split; [|reflexivity]. apply uniq_add; [exact U|]. cbn. intros u Hu.
@@ -57,22 +149,34 @@ Proof.
   - destruct (find_idx (is_user c uid) (r_table st)) as [i|] eqn:F; cbn; [|auto].
     destruct (find_idx_some _ _ _ F) as (e & He & _). split; [|reflexivity].
     exact (proj1 (uniq_swap_remove _ _ _ U He)).
+  - pose proof (emit_go_inv (filter (fun u => u_sig u =? sig) (r_table st)) (r_table st) (r_bad st) (r_once st) U) as I.
+    destruct (emit_go _ _ _ _) as [t' l]. cbn. split; [exact (proj1 I)|assumption || reflexivity].
   - cbn. auto.
 Qed.
 
-(* a step that is not the unregistration of (connection, id) of entry x keeps x *)
-Lemma raw_step_keeps st o x : Uniq (r_table st) -> r_dead st = false -> In x (r_table st) ->
-  (forall s, o <> RUnreg (u_conn x) s (u_uid x)) -> In x (r_table (fst (raw_step g st o))).
+(* a step that is neither the unregistration of (connection, id) of entry x nor a change of the health of
+   its connection keeps x, and keeps its connection healthy *)
+Lemma raw_step_keeps st o x : Uniq (r_table st) -> r_dead st = false -> In x (r_table st) -> healthy st (u_conn x) ->
+  (forall s, o <> RUnreg (u_conn x) s (u_uid x)) -> (forall k, o <> RBreak (u_conn x) k) ->
+  In x (r_table (fst (raw_step g st o))) /\ healthy (fst (raw_step g st o)) (u_conn x).
 Proof.
-  destruct G as [Gu Gd]. intros U D Hx No. destruct o as [c m sig uid|c sig uid|sig p]; cbn [raw_step]; rewrite ?D.
+  destruct G as [Gu Gd]. intros U D Hx [Hb Ho] No Nb.
+  destruct o as [c m sig uid|c sig uid|sig p|c k]; cbn [raw_step]; rewrite ?D.
   - destruct (find_idx (same_user g c uid) (r_table st)) as [i|] eqn:F.
-    + rewrite Gd. exact Hx.
-    + cbn. apply in_or_app. now left.
-  - destruct (find_idx (is_user c uid) (r_table st)) as [i|] eqn:F; cbn; [|exact Hx].
+    + rewrite Gd. split; [exact Hx|split; assumption].
+    + cbn. split; [apply in_or_app; now left|split; assumption].
+  - destruct (find_idx (is_user c uid) (r_table st)) as [i|] eqn:F; cbn; [|split; [exact Hx|split; assumption]].
+    split; [|split; assumption].
     destruct (find_idx_some _ _ _ F) as (e & He & Fe).
     destruct (proj2 (proj2 (uniq_swap_remove _ _ _ U He)) x Hx) as [->|Hin]; [|exact Hin].
     exfalso. apply is_user_key in Fe. unfold ukey in Fe. injection Fe as <- <-. exact (No sig eq_refl).
-  - exact Hx.
+  - pose proof (emit_go_inv (filter (fun u => u_sig u =? sig) (r_table st)) (r_table st) (r_bad st) (r_once st) U) as I.
+    destruct (emit_go _ _ _ _) as [t' l]. destruct I as (_ & K & _). cbn.
+    split; [exact (K x Hx Hb)|]. split; [exact Hb|now apply once_after_notin].
+  - assert (Ne : c <> u_conn x) by (intro E; subst c; exact (Nb k eq_refl)).
+    cbn. split; [exact Hx|]. split; cbn.
+    + destruct ((k =? 0) || (k =? 1) || (k =? 2)); [rewrite bad_of_break by exact Ne|]; exact Hb.
+    + destruct (k =? 3); [|exact Ho]. intros [E|Hin]; [exact (Ne E)|exact (Ho Hin)].
 Qed.
 
 Lemma raw_run_inv os : forall st, Uniq (r_table st) -> r_dead st = false ->
@@ -82,14 +186,37 @@ Proof.
   destruct (raw_step_inv st o U D) as [U' D']. exact (IH _ U' D').
 Qed.
 
-Lemma raw_run_keeps os : forall st x, Uniq (r_table st) -> r_dead st = false -> In x (r_table st) ->
-  (forall s, ~ In (RUnreg (u_conn x) s (u_uid x)) os) -> In x (r_table (raw_run g st os)).
+Lemma raw_run_keeps os : forall st x, Uniq (r_table st) -> r_dead st = false -> In x (r_table st) -> healthy st (u_conn x) ->
+  (forall s, ~ In (RUnreg (u_conn x) s (u_uid x)) os) -> (forall k, ~ In (RBreak (u_conn x) k) os) ->
+  In x (r_table (raw_run g st os)) /\ healthy (raw_run g st os) (u_conn x).
 Proof.
-  induction os as [|o os IH]; intros st x U D Hx No; [exact Hx|]. cbn [raw_run fold_left].
+  induction os as [|o os IH]; intros st x U D Hx Hh No Nb; [split; assumption|]. cbn [raw_run fold_left].
   destruct (raw_step_inv st o U D) as [U' D'].
-  apply IH; [exact U'|exact D'| |].
-  - apply raw_step_keeps; [exact U|exact D|exact Hx|]. intros s E. apply (No s). now left.
-  - intros s Hin. apply (No s). now right.
+  destruct (raw_step_keeps st o x U D Hx Hh) as [Hx' Hh'].
+  - intros s E. apply (No s). now left.
+  - intros k E. apply (Nb k). now left.
+  - apply IH; [exact U'|exact D'|exact Hx'|exact Hh'| |].
+    + intros s Hin. apply (No s). now right.
+    + intros k Hin. apply (Nb k). now right.
+Qed.
+
+(* health only changes by RBreak *)
+Lemma raw_step_healthy st o c : healthy st c -> (forall k, o <> RBreak c k) -> healthy (fst (raw_step g st o)) c.
+Proof.
+  intros [Hb Ho] Nb. destruct o as [c' m sig uid|c' sig uid|sig p|c' k]; cbn [raw_step].
+  - destruct (r_dead st); [split; assumption|]. destruct (find_idx _ _); [destruct (dup_relock g)|]; split; assumption.
+  - destruct (r_dead st); [split; assumption|]. destruct (find_idx _ _); split; assumption.
+  - destruct (emit_go _ _ _ _) as [t' l]. split; [exact Hb|cbn; now apply once_after_notin].
+  - assert (Ne : c' <> c) by (intro E; subst c'; exact (Nb k eq_refl)). split; cbn.
+    + destruct ((k =? 0) || (k =? 1) || (k =? 2)); [rewrite bad_of_break by exact Ne|]; exact Hb.
+    + destruct (k =? 3); [|exact Ho]. intros [E|Hin]; [exact (Ne E)|exact (Ho Hin)].
+Qed.
+
+Lemma raw_run_healthy os : forall st c, healthy st c -> (forall k, ~ In (RBreak c k) os) -> healthy (raw_run g st os) c.
+Proof.
+  induction os as [|o os IH]; intros st c H Nb; [exact H|]. cbn [raw_run fold_left]. apply IH.
+  - apply raw_step_healthy; [exact H|]. intros k E. apply (Nb k). now left.
+  - intros k Hin. apply (Nb k). now right.
 Qed.
 
 Lemma raw_run_app st a b : raw_run g st (a ++ b) = raw_run g (raw_run g st a) b.
@@ -99,24 +226,33 @@ Lemma raw_run_cons st o os : raw_run g st (o :: os) = raw_run g (fst (raw_step g
 Proof. reflexivity. Qed.
 
 Lemma uniq_init : Uniq (r_table rinit). Proof. constructor. Qed.
+Lemma healthy_init c : healthy rinit c. Proof. split; [reflexivity|intros []]. Qed.
 
 (* an acknowledged registration is in the table as long as no unregisterEvent of its own
-   (connection, id) has been processed: other registrations, refused or not, with the same id for
-   another signal or on another connection, and other unregistrations do not touch it *)
+   (connection, id) has been processed and its own connection stays in good health: other
+   registrations, refused or not, with the same id for another signal or on another connection,
+   other unregistrations, and OTHER CONNECTIONS GOING BAD IN ANY WAY (their registrations dropped in
+   the middle of an emission, their writes failing once or for ever) do not touch it *)
 Lemma raw_kept pre post c m sig uid :
   snd (raw_step g (raw_run g rinit pre) (RReg c m sig uid)) = OAck ->
   (forall s, ~ In (RUnreg c s uid) post) ->
+  (forall k, ~ In (RBreak c k) (pre ++ post)) ->
   In {| u_uid := uid; u_sig := sig; u_mid := m; u_conn := c |}
-     (r_table (raw_run g rinit (pre ++ RReg c m sig uid :: post))).
+     (r_table (raw_run g rinit (pre ++ RReg c m sig uid :: post))) /\
+  healthy (raw_run g rinit (pre ++ RReg c m sig uid :: post)) c.
 Proof.
-  intros A No. rewrite raw_run_app, raw_run_cons.
+  intros A No Nb. rewrite raw_run_app, raw_run_cons.
   destruct (raw_run_inv pre rinit uniq_init eq_refl) as [U D].
+  assert (Hh : healthy (raw_run g rinit pre) c).
+  { apply raw_run_healthy; [apply healthy_init|]. intros k Hin. apply (Nb k). apply in_or_app. now left. }
   set (st := raw_run g rinit pre) in *.
   destruct (raw_step_inv st (RReg c m sig uid) U D) as [U' D'].
-  apply (raw_run_keeps post _ _ U' D'); [|exact No].
-  revert A. destruct G as [Gu Gd]. cbn [raw_step]. rewrite D.
-  destruct (find_idx (same_user g c uid) (r_table st)); [rewrite Gd; discriminate|].
-  intros _. cbn. apply in_or_app. right. now left.
+  pose proof (raw_step_healthy st (RReg c m sig uid) c Hh (fun k => ltac:(discriminate))) as Hh'.
+  apply (raw_run_keeps post _ {| u_uid := uid; u_sig := sig; u_mid := m; u_conn := c |} U' D'); [|exact Hh'|exact No|].
+  - revert A. destruct G as [Gu Gd]. cbn [raw_step]. rewrite D.
+    destruct (find_idx (same_user g c uid) (r_table st)); [rewrite Gd; discriminate|].
+    intros _. cbn. apply in_or_app. right. now left.
+  - intros k Hin. apply (Nb k). apply in_or_app. now right.
 Qed.
 
 (* ... and every emission of its signal is sent to it *)
@@ -129,11 +265,21 @@ Qed.
 Lemma raw_acked_receives pre post c m sig uid p :
   snd (raw_step g (raw_run g rinit pre) (RReg c m sig uid)) = OAck ->
   (forall s, ~ In (RUnreg c s uid) post) ->
+  (forall k, ~ In (RBreak c k) (pre ++ post)) ->
   exists l, snd (raw_step g (raw_run g rinit (pre ++ RReg c m sig uid :: post)) (REmit sig p)) = OSent l /\ In (c, m) l.
 Proof.
-  intros A No. eexists. split; [reflexivity|].
-  exact (targets_in sig _ _ (raw_kept pre post c m sig uid A No) eq_refl).
+  intros A No Nb. destruct (raw_kept pre post c m sig uid A No Nb) as [Hin [Hb Ho]].
+  set (st := raw_run g rinit (pre ++ RReg c m sig uid :: post)) in *. cbn [raw_step].
+  pose proof (emit_go_sends (filter (fun u => u_sig u =? sig) (r_table st)) (r_table st) (r_bad st) (r_once st)
+                {| u_uid := uid; u_sig := sig; u_mid := m; u_conn := c |}) as S. cbn [u_conn u_mid] in S.
+  destruct (emit_go _ _ _ _) as [t' l]. cbn [snd] in *. exists l. split; [reflexivity|].
+  apply S; [|exact Hb|exact Ho]. apply filter_In. split; [exact Hin|]. cbn. apply N.eqb_refl.
 Qed.
+
+(* with every connection in good health an emission is the plain fan-out in table order *)
+Lemma raw_emit_all_healthy st sig p : r_bad st = [] -> r_once st = [] ->
+  snd (raw_step g st (REmit sig p)) = OSent (targets sig (r_table st)) /\ r_table (fst (raw_step g st (REmit sig p))) = r_table st.
+Proof. intros B O. cbn [raw_step]. rewrite B, O, emit_go_healthy. split; reflexivity. Qed.
 
 (* an acknowledged unregistration leaves no entry for that (connection, id): nothing more is sent to it *)
 Lemma raw_removed os c s uid :
@@ -152,10 +298,20 @@ Qed.
 (* a refused call changes nothing *)
 Lemma raw_refused st o : snd (raw_step g st o) = ORefused -> fst (raw_step g st o) = st.
 Proof.
-  destruct G as [Gu Gd]. destruct o as [c m sig uid|c sig uid|sig p]; cbn [raw_step].
+  destruct G as [Gu Gd]. destruct o as [c m sig uid|c sig uid|sig p|c k]; cbn [raw_step].
   - destruct (r_dead st); [discriminate|]. destruct (find_idx _ _); [rewrite Gd; reflexivity|discriminate].
   - destruct (r_dead st); [discriminate|]. destruct (find_idx _ _); [discriminate|reflexivity].
+  - destruct (emit_go _ _ _ _) as [t' l]. discriminate.
   - discriminate.
+Qed.
+
+(* nothing is written to a connection every write to which fails *)
+Lemma raw_bad_gets_nothing st sig p c m l : bad_of (r_bad st) c <> None ->
+  snd (raw_step g st (REmit sig p)) = OSent l -> ~ In (c, m) l.
+Proof.
+  intros Hb. cbn [raw_step].
+  pose proof (emit_go_bad (filter (fun u => u_sig u =? sig) (r_table st)) (r_table st) (r_bad st) (r_once st) c m Hb) as E.
+  destruct (emit_go _ _ _ _) as [t' l']. cbn [snd] in *. intros [= <-]. exact E.
 Qed.
 End Raw.
 
@@ -163,12 +319,12 @@ End Raw.
 Definition op_of (c : nat) (f : uframe) : rop :=
   match f with UReg m sig uid => RReg c m sig uid | UUnreg m sig uid => RUnreg c sig uid end.
 Lemma step_mbox_is_raw_step g st c f rest st' : up st c = f :: rest -> step g st (LMbox c) = Some st' ->
-  table st' = r_table (fst (raw_step g {| r_table := table st; r_dead := false |} (op_of c f))).
+  table st' = r_table (fst (raw_step g (rof (table st)) (op_of c f))).
 Proof.
   intros Hu. cbn [step]. destruct (dead st || stuck st c); [discriminate|].
   destruct (pend st); [discriminate|]. rewrite Hu.
   destruct (negb (snapshot_send g) && emitting st); [discriminate|].
-  destruct f as [m sig uid|m sig uid]; cbn [op_of raw_step r_dead r_table].
+  destruct f as [m sig uid|m sig uid]; cbn [op_of raw_step rof r_dead r_table].
   - destruct (find_idx (same_user g c uid) (table st)); [destruct (dup_relock g)|]; intros [= <-]; reflexivity.
   - destruct (find_idx (is_user c uid) (table st)); intros [= <-]; reflexivity.
 Qed.
